@@ -358,12 +358,15 @@ def plain_handshake(dev):
 class RecordingSigner(object):
   """An AuthSigner that records what it is asked to sign."""
 
-  def __init__(self, sim, k):
+  def __init__(self, sim, k, delay=0.0):
     self.sim = sim
     self.k = k
+    self.delay = delay
 
   def sign(self, data):
     self.sim.event('sign', self.k, data)
+    if self.delay:
+      core.sim_sleep(self.delay)   # e.g. a hardware token that takes its time
     return 'SIG%d(%s)' % (self.k, data)
 
   def get_public_key(self):
@@ -396,6 +399,21 @@ def scripted_handshake(batches):
       dev.sim.event('dev_got', m[0], m[1], m[3][:24])
 
   return run
+
+
+def stream_poller(sim, stream, key, n, pause, out):
+  """Non-blocking polls (timeout 0) of a stream on which another thread is writing (C14)."""
+  res = out[key]
+  for _ in range(n):
+    try:
+      timed(sim, res['calls'], 'poll', 0, lambda: stream.read(0, 0))
+    except usb_exceptions.AdbTimeoutError:
+      pass
+    except usb_exceptions.AdbStreamClosedError:
+      res['end'] = 'closed'
+      return
+    core.sim_sleep(pause)
+  res['end'] = 'polled'
 
 
 def closer(sim, stream, delay, out):
